@@ -197,6 +197,60 @@ def case(item):
     return res
 
 
+def cli_case(item):
+    """End to end through the real command line: `phyclone run` (in-process pool), then `phyclone map`, `consensus`,
+    `topology-report` on the trace it wrote; every table + tree decoded and judged like the synthetic traces."""
+    from mc import clidrv
+
+    n_mut, n_samp, clustered, chains, outlier, seed = item
+    res = {"item": item, "problems": [], "outputs": 0}
+    d = clidrv.scratch("c12cli_")
+    try:
+        f, cf = clidrv.write_input(d, n_mut, n_samp, clustered)
+        out = os.path.join(d, "trace.pkl.gz")
+        argv = ["run", "-i", f, "-o", out, "--num-iters", "6", "--burnin", "1", "--num-particles", "3", "--grid-size", "11", "--seed", str(seed), "--print-freq", "1000",
+                "--num-chains", str(chains), "--outlier-prob", repr(outlier), "--subtree-update-prob", "0.3"]
+        if cf:
+            argv += ["--cluster-file", cf]
+        code, exc, _ = clidrv.invoke(argv, completion_order=list(range(chains))[::-1])
+        if exc is not None or code != 0:
+            res["problems"].append("run: command failed with %s: %s" % (type(exc).__name__, str(exc)[:120]))
+            return res
+        results = clidrv.read_trace(out)
+        data, samples = results[0]["data"], list(results[0]["samples"])
+        crows = [("m%d" % m, 0 if m < 2 else m - 1) for m in range(n_mut)] if clustered else None
+        tb, tr = os.path.join(d, "t.tsv"), os.path.join(d, "t.nwk")
+        jobs = [("map/" + mt, ["map", "-i", out, "-o", tb, "-t", tr, "--map-type", mt]) for mt in ("joint-likelihood", "frequency")]
+        jobs += [("consensus/%s/%s" % (wt, th), ["consensus", "-i", out, "-o", tb, "-t", tr, "-w", wt] + (["--consensus-threshold", th] if th else []))
+                 for wt in ("counts", "joint-likelihood") for th in (None, "0.9")]
+        for label, av in jobs:
+            for p_ in (tb, tr):
+                if os.path.exists(p_):
+                    os.remove(p_)
+            code, exc, _ = clidrv.invoke(av)
+            if exc is not None or code != 0:
+                res["problems"].append("%s: command failed with %s: %s" % (label, type(exc).__name__, str(exc)[:120]))
+                continue
+            res["outputs"] += 1
+            probs, _ = check_output(traces.read_table(tb), open(tr).read().strip(), data, samples, crows, None, label)
+            res["problems"] += probs[:2]
+        rep, arch = os.path.join(d, "r.tsv"), os.path.join(d, "r.tar.gz")
+        for extra in ([], ["--top-trees", "1"]):
+            code, exc, _ = clidrv.invoke(["topology-report", "-i", out, "-o", rep, "-t", arch] + extra)
+            if exc is not None or code != 0:
+                res["problems"].append("topology-report: command failed with %s: %s" % (type(exc).__name__, str(exc)[:120]))
+                continue
+            for tid, (tab, nwk) in traces.read_archive(arch).items():
+                res["outputs"] += 1
+                probs, _ = check_output(tab, nwk, data, samples, crows, None, "topology-report/" + tid)
+                res["problems"] += probs[:2]
+    except Exception as e:
+        res["problems"].append("harness: %s: %s" % (type(e).__name__, str(e)[:150]))
+    finally:
+        clidrv.cleanup(d)
+    return res
+
+
 def large_case(item):
     """Bigger inputs: 12 data points / clusters (ids >= 10), 3 samples, deep and wide trees, some outliers."""
     par, clustered, k = item
@@ -258,7 +312,7 @@ def main(tier, seed):
     chk.rule = ("every tree over n<=3 data points incl. every outlier subset (all-outlier, single-clone ...) and multisets whose consensus has empty clones, x "
                 "{unclustered, clustered with integer ids and sizes (1,2,1)} x samples {1,2} x {one chain, 2 or 3 chains stored in a completion order that does not start with chain 0}; each through map (both modes), consensus (both weightings), "
                 "topology-report + archive; outputs decoded (table + Newick) and compared with the input mutation list, the trace's tree, feasibility and the "
-                "brute-force CCF optimum; non-trivial = tree with >= 2 clones or an outlier")
+                "brute-force CCF optimum; end-to-end cases through the real command line (phyclone run -> map / consensus / topology-report on 1-4 mutations, clustered or not, 1-2 chains); non-trivial = tree with >= 2 clones or an outlier")
     chk.assumptions = ["Newick node labels are compared as strings with the table's clone_id", "an empty clone (consensus trees) has no table row"]
     items = []
     for n in (1, 2, 3):
@@ -292,6 +346,16 @@ def main(tier, seed):
         for pr in r["problems"][:3]:
             chk.violation({"sub": "table-large", "command": pr.split(":")[0].split("/")[0], "clustered": r["item"][1], "what": pr.split(":")[1].strip()[:40] if ":" in pr else pr[:40]},
                           {"forest_parent_vector": list(r["item"][0]), "clustered": r["item"][1], "problem": pr}, {"large": [list(r["item"][0]), r["item"][1], r["item"][2]]})
+    citems = [(n_mut, n_samp, cl, chains, op, 3 + k) for k, (n_mut, n_samp, cl) in enumerate(((1, 1, False), (2, 2, False), (3, 1, True), (4, 2, True), (4, 1, False)))
+              for chains in (1, 2) for op in (0.0, 0.3)] + ([(5, 3, True, 3, 0.3, s_) for s_ in range(20, 30)] if tier == "thorough" else [])
+    for r in pool_imap(cli_case, citems, chunksize=1):
+        chk.states.add(("cli",) + tuple(r["item"]))
+        chk.nontrivial.add(("cli",) + tuple(r["item"]))
+        chk.transitions += r["outputs"]
+        chk.traces_validated += r["outputs"]
+        for pr in r["problems"][:3]:
+            chk.violation({"sub": "table-cli", "command": pr.split(":")[0].split("/")[0], "clustered": r["item"][2], "what": pr.split(":")[1].strip()[:40] if ":" in pr else pr[:40]},
+                          {"mutations,samples,clustered,chains,outlier_prob,seed": list(r["item"]), "problem": pr}, {"cli": list(r["item"])})
     for r in pool_imap(case, items, chunksize=2):
         n, spec, cl, dims = r["item"][:4]
         layout = r["item"][4] if len(r["item"]) > 4 else None
@@ -311,6 +375,10 @@ def main(tier, seed):
 
 def replay(path):
     body = json.load(open(path))
+    if "cli" in body["replay"]:
+        r = cli_case(tuple(body["replay"]["cli"]))
+        print(r["problems"])
+        return 1 if r["problems"] else 0
     if "large" in body["replay"]:
         it = body["replay"]["large"]
         r = large_case((tuple(it[0]), it[1], it[2]))
